@@ -386,7 +386,7 @@ impl FormatSpace {
                     let (k, d) = self.locate(i);
                     let s = &self.seeds[k];
                     match s.apply(&d) {
-                        Some(input) => sb.run(input.len(), true, skip, &|rec: &mut Recorder| self.fmt.run(s, &input, rec, &sc.0)),
+                        Some(input) => sb.run(input.len(), true, skip, false, &|rec: &mut Recorder| self.fmt.run(s, &input, rec, &sc.0)),
                         None => Default::default(),
                     }
                 })
@@ -439,9 +439,14 @@ impl Space for FormatSpace {
         let mut skip: Vec<u32> = vec![];
         let mut deaths: Vec<sandbox::Death> = vec![];
         let mut rep;
+        let mut earlier: Vec<sandbox::Report> = vec![];
         loop {
-            rep = sb.run(input.len(), false, &skip, &body);
+            rep = sb.run(input.len(), false, &skip, true, &body);
+            for e in earlier.iter().rev() {
+                rep.absorb_earlier(e);
+            }
             let Some(d) = rep.death.clone() else { break };
+            earlier = vec![rep.clone()];
             let hang = d.class.starts_with("hang");
             skip.push(d.call_no);
             deaths.push(d);
@@ -640,7 +645,7 @@ fn main() {
     let only: Option<Vec<String>> = arg_after("--only-format").or_else(|| std::env::var("C05_FORMATS").ok()).map(|s| s.split(',').map(|x| x.trim().to_string()).collect());
     c.rule = "One space per format (wdt, wdl, dbc, blp, skin, anim, m2, wmo_root, wmo_group, adt, ptch, codec, mpq; `--only-format a,b` or C05_FORMATS runs a subset). \
         Case = (seed file written by the crate's own writer/builder, deviation). Deviations: none (the seed); every prefix length (thorough: all < 4 KiB, then every 97th, last 64; \
-        quick: all < 256, every 7th < 4 KiB, every 997th beyond, last 16); every located 32-bit field position (header dwords, magic/size/first payload dwords of every chunk incl. sub-chunks, \
+        quick: all < 160, every 11th < 4 KiB, every 997th beyond, last 16); every located 32-bit field position (header dwords, magic/size/first payload dwords of every chunk incl. sub-chunks, \
         table entries, for MPQ also the plaintext dwords inside the encrypted hash/block/HET/BET tables: decrypt, patch, re-encrypt) x 10 values {0,1,2^31-1,2^31,2^32-1,field-1,field+1,file_len,file_len-1,file_len+1} \
         (quick: header-level sites all, the rest strided to 120 sites per seed; thorough: up to 1600 per seed); delete/duplicate/swap-with-next of every chunk (sizes of enclosing chunks kept consistent; quick strided to 24 chunks per seed); \
         thorough only: all pairs of <= 40 header-level sites (strided if a seed has more) x 6x6 values {0,2^32-1,2^31-1,2^31,field+1,file_len} for every seed. \
